@@ -10,7 +10,7 @@ MANIFEST_ENTRY = {
   "text": "Theorems in coq/Properties/C15.v about an executable model of BasicGarnishData (one heap list cut into six blocks; push_to_block, reallocate_heap, next_size, every push_to_*, the data-block adders, linked register/value/frame cells) and of SimpleGarnishData (hash-keyed intern table): with the invariant Inv (blocks contiguous in declaration order, cursor <= size, heap length = sum of sizes) and the abstraction abs (per block: firstn cursor (skipn start heap)), every operation under every growth setting that can make progress (FixedSize k>=1; Multiplicative m>=2 from a non-zero size) preserves Inv and changes abs by exactly one append (or the one named mutable cell); lifted over all histories: what was stored at the address returned at step i reads back the same at every later step j (C15_readback). C15_no_progress_refuted shows the side condition is needed. C15_simple_intern: under an injective hash, equal constants get the same address and different constants different addresses. The models are tied to data/src/basic/*.rs, data/src/simple.rs, data/src/runtime.rs on every run by executing all interleavings of pushes over the tables (initial sizes 0,1,2 x every progressing policy), random long and mixed-profile histories on the real code and on the extracted model and diffing canonical dumps (heap, block triples, everything read through the public getters); an independent Python oracle of six growable tables checks the implementation directly.",
   "design_ref": "DESIGN.md section 8 C15, Appendix A.4"
  },
- "level_note": "Partial: read-back is proved cell by cell (every frozen data cell, every instruction, membership in the two sorted symbol tables); the read-back of whole value trees through chains of getters is covered by the correspondence/oracle runs only. Symbol names (BasicGarnishData) ARE proved for all histories (round 6, Proofs/C15/SymbolNames*.v): every operation except parse_add_symbol leaves the symbol-table block unchanged (C15_other_ops_keep_symbols); the binary search of search.rs on a table in nondecreasing key order (duplicate keys allowed) returns an entry carrying the searched key if one exists and None otherwise, never an error, panic or fuel exhaustion (C15_symbol_search); hence get_symbol_string(hash name) returns Ok(Some name) after the registering history and after every continuation, and a value no registered name hashes to yields Ok None (C15_symbol_lookup, C15_symbol_name_readback), under the hypotheses that the symbol hash (an oracle) is injective on the registered names and each name's header is its character count; expression symbols (get_symbol_expression) have the search lemma but no history theorem. Trusted: Coq kernel; extraction (ExtrOcamlBasic only); harness/src/bin/store.rs + ocaml/store_driver.ml + this file; the cfg(garnish_core_verif) accessors of data/src/basic/verif.rs. Assumptions: usize arithmetic does not overflow (sizes are nat); slice::sort_by is a stable sort; the intern-table hash and symbol_value are functions, injective where C15_simple_intern says so (a collision cannot be exhibited; stated hypothesis, not a finding); max_items is unbounded in the read-back theorems (finite limits are covered by correspondence only). Clone/optimize (C19) are out of scope.",
+ "level_note": "Partial: read-back is proved cell by cell (every frozen data cell, every instruction, membership in the two sorted symbol tables); the read-back of whole value trees through chains of getters is covered by the correspondence/oracle runs only. Symbol names (BasicGarnishData) ARE proved for all histories (round 6, Proofs/C15/SymbolNames*.v): every operation except parse_add_symbol leaves the symbol-table block unchanged (C15_other_ops_keep_symbols); the binary search of search.rs on a table in nondecreasing key order (duplicate keys allowed) returns an entry carrying the searched key if one exists and None otherwise, never an error, panic or fuel exhaustion (C15_symbol_search); hence get_symbol_string(hash name) returns Ok(Some name) after the registering history and after every continuation, and a value no registered name hashes to yields Ok None (C15_symbol_lookup, C15_symbol_name_readback), under the hypotheses that the symbol hash (an oracle) is injective on the registered names and each name's header is its character count; expression symbols likewise, with no side condition on the operations (C15_other_ops_keep_expression_symbols, C15_expression_symbol_push, C15_expression_symbol_search, C15_expression_symbol_readback: after any history get_symbol_expression sym is exactly Ok of the most recent value pushed for sym and Ok None for a symbol never pushed; a symbol pushed twice keeps both entries and reads back the later value). Trusted: Coq kernel; extraction (ExtrOcamlBasic only); harness/src/bin/store.rs + ocaml/store_driver.ml + this file; the cfg(garnish_core_verif) accessors of data/src/basic/verif.rs. Assumptions: usize arithmetic does not overflow (sizes are nat); slice::sort_by is a stable sort; the intern-table hash and symbol_value are functions, injective where C15_simple_intern says so (a collision cannot be exhibited; stated hypothesis, not a finding); max_items is unbounded in the read-back theorems (finite limits are covered by correspondence only). Clone/optimize (C19) are out of scope.",
  "technique": "Coq proof (refinement by invariant, fold over histories) over an executable model + differential correspondence with the Rust implementation"
 }
 
